@@ -1289,6 +1289,9 @@ Theorem confined_opener : forall o paths, opener_ok root o ->
   confined root staging (opener_open_files root o paths).
 Proof. intros. eapply cpost_confined. apply opener_open_files_ok; assumption. Qed.
 
+Theorem confined_transmit : forall paths, confined root staging (transmit root paths).
+Proof. intros. eapply cpost_confined. apply opener_open_files_ok; [exact Hroot|constructor]. Qed.
+
 Theorem confined_scan : forall fuel, confined root staging (scan root fuel).
 Proof. intros. eapply cpost_confined. apply scan_ok. exact Hroot. Qed.
 
